@@ -26,6 +26,7 @@ type naStream struct {
 	CloseBy    int   `json:"close_by"`    // 0 client closes when done, 1 server closes when done, 2 both
 	DeadlineMs int   `json:"deadline_ms"` // server read deadline (0 none)
 	StartMs    int   `json:"start_ms"`
+	PastRead   int   `json:"past_deadline_read,omitempty"` // the n-th server Read (1-based) is issued with a deadline that has already expired
 	sessionLeaves bool // (derived) the stream's client session closes on its own during the run
 }
 
@@ -81,6 +82,9 @@ func (netadScenario) Gen(r *Rng, tier string, opts map[string]string) interface{
 			}
 			if r.Chance(1, 4) {
 				st.DeadlineMs = r.Pick(10, 200, 3000)
+			}
+			if r.Chance(1, 5) {
+				st.PastRead = r.Pick(1, 2, 3)
 			}
 			ss = append(ss, st)
 		}
@@ -520,13 +524,27 @@ func (w *naWorld) serveConn(c net.Conn) {
 		ri++
 		buf := make([]byte, sz)
 		var dl time.Time
-		if pl.DeadlineMs > 0 {
+		past := ri == pl.PastRead
+		if past {
+			// as on a socket: a Read issued after its deadline does not wait (it fails, or returns what is there)
+			_ = c.SetReadDeadline(time.Now().Add(-5 * time.Millisecond))
+		} else if pl.DeadlineMs > 0 {
 			dl = time.Now().Add(time.Duration(pl.DeadlineMs) * time.Millisecond)
 			_ = c.SetReadDeadline(dl)
 		} else {
 			_ = c.SetReadDeadline(time.Now().Add(60 * time.Second))
 		}
+		t0 := simrt.Now()
 		n, err := c.Read(buf)
+		if past {
+			if took := simrt.Now() - t0; took > time.Second {
+				simrt.FailTagged("C19.deadline_ignored", naLostTags(c), "Read issued with an expired deadline blocked for %v (returned %d, %v)", took, n, err)
+				return
+			}
+			if err == ErrTimeout {
+				continue
+			}
+		}
 		if err != nil {
 			if err == ErrTimeout {
 				if pl.DeadlineMs > 0 && time.Now().Before(dl) {
@@ -550,6 +568,17 @@ func (w *naWorld) serveConn(c net.Conn) {
 			}
 		}
 		cs.received += n
+	}
+	if cs.received == total && pl.PastRead > 0 {
+		// everything has arrived and the client now waits for this side: a Read whose deadline has already expired
+		// must come back at once (timeout, or end-of-stream if the client has closed meanwhile), as on a socket
+		_ = c.SetReadDeadline(time.Now().Add(-5 * time.Millisecond))
+		t0 := simrt.Now()
+		n, err := c.Read(make([]byte, 16))
+		if took := simrt.Now() - t0; took > time.Second {
+			simrt.FailTagged("C19.deadline_ignored", naLostTags(c), "Read issued with an expired deadline blocked for %v (returned %d, %v)", took, n, err)
+			return
+		}
 	}
 	if cs.received == total && pl.Echo > 0 {
 		e := make([]byte, pl.Echo)
